@@ -365,3 +365,4 @@ B("c02-group1-optional", ["C02"], "regexes.py", 'return rf"(?:^|[^a-zA-Z0-9])({r
 B("c02-markup-offset-not-translated", ["C02"], "find.py", "                span_start=start_in_plain,\n                span_end=end_in_plain,\n", "                span_start=start_in_markup + match.start(1),\n                span_end=end_in_plain,\n", rule="R-C19-5")
 B("c02-balancer-not-rebased", ["C02"], "utils.py", "                start = extended_start + matches[-1].start()\n", "                start = matches[-1].start()\n", rule="R-C02-1")
 N("c02-max-arg-order", ["C02"], "helpers.py", "            from_token.end + max(extra_chars - len(prefix), 0),\n", "            from_token.end + max(0, extra_chars - len(prefix)),\n")
+B("c10-revert-index-clamp", ["C10"], "annotate.py", "        index = max(bisect(self.offsets, offset) - 1, 0)\n", "        index = bisect(self.offsets, offset) - 1\n", rule="C10-R8")
